@@ -72,7 +72,7 @@ func (f *Mapcan) Call(s *slip.Scope, args slip.List, depth int) slip.Object {
 			l2 := args[i].(slip.List)
 			ca[i-1] = l2[n]
 		}
-		r := caller.Call(s, ca, d2)
+		r := slip.PrimaryValue(caller.Call(s, ca, d2))
 		switch tr := r.(type) {
 		case nil:
 			// ok but nothing to append
